@@ -86,6 +86,21 @@ def auto (env : List Decl) (ext : Nat → Rule) (ρ : List Nat → Bool × Bool)
   | _ + 1, .fnPtr => (true, true)
   | _ + 1, .opaque => (false, false)
 
+/-- the neutral types (type parameters and their associated-type projections) the verdict on a
+    type depends on: what `auto` asks `ρ` about -/
+def neutrals (env : List Decl) : Nat → Ty → List (List Nat)
+  | 0, _ => []
+  | _ + 1, .neu p => [p]
+  | f + 1, .app c args =>
+    (match env[c]? with
+     | some d => (d.fields.map (fun ft => neutrals env f (subst args f ft))).flatten
+     | none => (args.map (neutrals env f)).flatten)
+  | f + 1, .tuple ts => (ts.map (neutrals env f)).flatten
+  | f + 1, .array t => neutrals env f t
+  | f + 1, .ref t => neutrals env f t
+  | f + 1, .refMut t => neutrals env f t
+  | _ + 1, _ => []
+
 /-- the declaration applied to its own parameters -/
 def ownTy (env : List Decl) (i : Nat) : Ty :=
   .app i ((List.range (env[i]?.map (·.nparams) |>.getD 0)).map (fun k => .neu [k]))
@@ -98,6 +113,14 @@ def syncOnly (atoms : List (List Nat)) : List Nat → Bool × Bool := fun p => (
 
 /-- assignment: the listed neutral types are Send and Sync -/
 def both (atoms : List (List Nat)) : List Nat → Bool × Bool := fun p => (atoms.contains p, atoms.contains p)
+
+/-- the verdict the theorems of C18 are about, for declaration `i` of a generated environment:
+    Send when every neutral type it depends on is Send; Sync when every one of them is Sync -/
+def sendOK (env : List Decl) (ext : Nat → Rule) (fuel i : Nat) : Bool :=
+  (auto env ext (sendOnly (neutrals env fuel (ownTy env i))) fuel (ownTy env i)).1
+
+def syncOK (env : List Decl) (ext : Nat → Rule) (fuel i : Nat) : Bool :=
+  (auto env ext (syncOnly (neutrals env fuel (ownTy env i))) fuel (ownTy env i)).2
 
 end AT
 end Fc
